@@ -137,6 +137,7 @@ class Ctx:
                     r.instances[k] = (site, "HOLDS", why)
                     changed = True
             if changed:
+                r.floor = min(r.floor, sum(1 for i in r.instances if i[1] in ("HOLDS", "VIOLATED")))  # the semantic rules carry their own floors
                 self.violations = [v for v in self.violations if v.rule != rid]
                 self.errors = [e for e in self.errors if not e.startswith(rid + " ") and not e.startswith(rid + ":")]
                 self.notes.append(f"{rid}: deferred to {', '.join(semantic)}")
